@@ -6,6 +6,7 @@ from lib import SPEC
 BASE2 = {"CertKeys": '{"k1","k2"}', "EncKeys": '{"e1","e2"}', "Nonces": '{"n1","n2"}', "Tokens": '{"t1","t2"}',
          "AppStates": '{"s1"}', "NodeIds": '{"N1"}'}
 BASE3 = dict(BASE2, CertKeys='{"k1","k2","k3"}')
+BASE3S = dict(BASE3, AppStates='{"s1","s2"}')
 
 
 def gen_cfg(name, consts, classes, depth, sw=False, nidl=False, fallback="FetchAny"):
@@ -58,7 +59,7 @@ def nontrivial(prop, l):
 FAMILY = dict(
     driver="reg",
     trace_module="RegistryTrace.tla",
-    trace_consts=BASE3,
+    trace_consts=BASE3S,
     level="model_checking",
     fixed="fixed/reg.ndjson",
     nontrivial=nontrivial,
@@ -77,13 +78,13 @@ FAMILY = dict(
           dict(quick=80, thorough=1500), ["C06"], sw=False),
         G("C03a", BASE2, ["Submit", "SubmitWin", "CreateRequest", "Authorize"], 10,
           dict(quick=150, thorough=3000), ["C03"]),
-        G("C05a", BASE3, ["Authorize", "Nid", "Remove", "GenCerts", "GenNear"], 12,
+        G("C05a", BASE3, ["Authorize", "Nid", "Remove", "GenCerts", "GenNear", "KeyKind"], 12,
           dict(quick=120, thorough=2500), ["C05"], nidl=True),
-        G("C05b", BASE3, ["Authorize", "Nid", "Remove", "GenCerts", "GenNear"], 10,
+        G("C05b", BASE3, ["Authorize", "Nid", "Remove", "GenCerts", "GenNear", "KeyKind"], 10,
           dict(quick=60, thorough=1000), ["C05"], nidl=False),
-        G("C10a", BASE3, ["Authorize", "Nid", "Prev", "Remove", "Rotate", "RotNear"], 12,
+        G("C10a", BASE3S, ["Authorize", "Nid", "Prev", "Remove", "Rotate", "RotNear", "Strip"], 12,
           dict(quick=120, thorough=2500), ["C10"], nidl=True),
-        G("C10b", BASE3, ["Authorize", "Prev", "Remove", "Rotate", "RotNear"], 12,
+        G("C10b", BASE3S, ["Authorize", "Prev", "Remove", "Rotate", "RotNear"], 12,
           dict(quick=80, thorough=1500), ["C10"], nidl=False, sw=True),
     ],
     rule={
